@@ -153,7 +153,19 @@ func (r *runner) doClose(cl *CloseSpec, pos int, with []Op) {
 		// what was in flight survives a crash of this process
 		r.partial(r.result(true))
 	}
+	allow, why := r.closeAllowance(ctx, with)
 	close(start)
+	// Virtual time only advances when every goroutine of the bubble is durably
+	// blocked: if this 1 ns timer fires before the call returned, the call is
+	// waiting for time to pass.  The goroutines it waits for are named now.
+	slowAt := ""
+	tick := time.NewTimer(time.Nanosecond)
+	select {
+	case <-done:
+	case <-tick.C:
+		slowAt, _, _ = classify(allStacks(), r.bubble, false)
+	}
+	tick.Stop()
 	tm := time.NewTimer(closeLimit)
 	select {
 	case <-done:
@@ -161,6 +173,18 @@ func (r *runner) doClose(cl *CloseSpec, pos int, with []Op) {
 		r.violation("close-hang", cl.Kind+" did not return within 2 h of virtual time", true)
 	}
 	tm.Stop()
+	r.mu.Lock()
+	lat := r.closeRet - r.closeStart
+	returned := r.closeRet >= 0 && r.closeStart >= 0
+	r.mu.Unlock()
+	if returned {
+		r.orc("oracle 1b (takes no virtual time): %s expected to return after at most %v (%s); it took %v%s", cl.Kind, allow, why, lat,
+			map[bool]string{true: "; while it waited, blocked outside the idle loops: " + slowAt, false: ""}[slowAt != ""])
+		if lat > allow {
+			r.fail("close-slow", "close-slow@"+slowAt, fmt.Sprintf("%s invoked at %d ms returned only %v of virtual time later (allowed: %v, %s); in flight: %v",
+				cl.Kind, ms(r.closeStart), lat, allow, why, ctx))
+		}
+	}
 	// attaches parked in their auth gate go on now that the close returned
 	r.mu.Lock()
 	after := r.relAfter
@@ -186,6 +210,56 @@ func (r *runner) doClose(cl *CloseSpec, pos int, with []Op) {
 		r.closing = false
 		r.mu.Unlock()
 	}
+}
+
+// closeAllowance: how much virtual time Close / RemoveRealm may legitimately
+// take.  Nothing in the shutdown sequence waits for time, except for what the
+// harness itself arranged: a RESULT retry towards a session that does not
+// read (<= 65.535 s per queued YIELD, the C07 exception and known finding), a
+// gated handshake (1 s), a message held in a handler by a harness gate, a
+// rawsocket peer whose writer waits for a client that stopped reading.
+func (r *runner) closeAllowance(ctx []string, with []Op) (time.Duration, string) {
+	allow, why := time.Duration(0), "nothing in flight waits for time"
+	up := func(d time.Duration, w string) {
+		if d > allow {
+			allow, why = d, w
+		}
+	}
+	for _, c := range ctx {
+		switch c {
+		case "stalled-session":
+			up(closeLimit, "a session does not read: RESULT retries may be pending")
+		case "handshake-in-flight":
+			up(2*gateOpenAfter, "a gated handshake is in flight")
+		case "message-held-in-handler":
+			up(holdFallback+time.Second, "a message is held in a handler by a harness gate")
+		}
+	}
+	for _, o := range with {
+		switch o.Op {
+		case "join", "hello_goodbye":
+			up(2*gateOpenAfter, "a handshake is released together with the close")
+		case "stall":
+			up(closeLimit, "a session stops reading together with the close")
+		}
+		if o.HoldUntil != "" {
+			up(holdFallback+time.Second, "a message is held in a handler by a harness gate")
+		}
+	}
+	r.mu.Lock()
+	defer r.mu.Unlock()
+	if r.lastStalled >= 0 && r.now()-r.lastStalled <= yieldRetryMax {
+		up(closeLimit, "a session did not read during the last 66 s: RESULT retries may be pending")
+	}
+	for _, s := range r.sess {
+		if s.spec.Raw && s.gone == "" {
+			up(closeLimit, "a rawsocket session is attached (its Close waits for the writer goroutine)")
+		}
+		if s.stalled && s.gone == "" {
+			up(closeLimit, "a session does not read: RESULT retries may be pending")
+		}
+	}
+	return allow, why
 }
 
 func (r *runner) settleHandshakes() {
@@ -659,6 +733,13 @@ func (r *runner) refine() {
 	}
 	if len(notes) > 0 {
 		f.Detail += " | after 2 h: " + strings.Join(notes, "; ")
+	}
+	if never && f.Signature == "meta-result-retry-blocks-metapeer" {
+		// the known finding ends with the RESULT retry (65.5 s); this did not end
+		list, _, _ := classify(allStacks(), r.bubble, false)
+		f.Oracle = "deadlock"
+		f.Signature = "never-released@" + list
+		f.Detail += " | NOT the bounded RESULT retry: still blocked after 2 h"
 	}
 	if never && f.Oracle == "bystander-delayed" {
 		f.Oracle = "bystander-starved"
